@@ -5,8 +5,10 @@ PROPERTY = "C02"
 STATEFUL = True
 READY = True
 THEOREMS = ["C02.sets_closed", "C02.sets_exact", "C02.fuel_enough", "C02.det_complete", "C02.fact_lang_eq", "C02.exact", "C02.reject_raises", "C02.exact_templates", "C02.smart_indep",
-            "C02.conflict_report_exact", "C02.ll1_as_written_unambiguous", "C02.ll1_as_written_nonvacuous",
-            "C02.table_deterministic", "C02.unique_derivation", "C02.parse_unique"]
+            "C02.conflict_report_exact", "C02.user_sets_total", "C02.ll1_as_written_unambiguous", "C02.ll1_as_written_nonvacuous",
+            "C02.table_deterministic", "C02.unique_derivation", "C02.parse_unique",
+            "C02.sets_exact_templates", "C02.conflict_report_exact_templates", "C02.ll1_as_written_unambiguous_templates",
+            "C02.parse_unique_templates", "C02.smart_indep_templates"]
 RULE = ("one case = one generated grammar (generators and dimensions as C01 - observer methods between parses, keyword arguments of parse, templates, argument kinds, several parser objects, "
         "str / list-of-lines input - with more LL(1)-ish grammars, groups of 3-9 alternatives behind one leading symbol (suffix symbols with more "
         "than 5 productions survive the smart undo), a well-formed non-left-recursive grammar must be accepted with both "
@@ -16,7 +18,7 @@ RULE = ("one case = one generated grammar (generators and dimensions as C01 - ob
         "sequential answer), constructed with "
         "smart_factorization True and False, each followed by every token string up to the tier's length plus "
         "sampled sentences (members) ; non-trivial = grammar accepted with is_ambiguous() False for at least one "
-        "setting and at least one member and one non-member among the inputs; distinct by protocol text")
+        "setting and at least one member and one non-member among the inputs; distinct by protocol text; round 8 dimensions: 4 token configurations whose patterns have CONTEXT assertions (`^`, look-behind, \\b; every lexeme rendered at line starts, behind blanks and glued to its neighbour; str and list-of-lines input), ProdSequence templates with an AnyTokenExcept member at the first / a middle / the last position of the argument list (tag seqax), ListProds without delimiter with and without brackets, item nullable or not (tag nodelim), cycles of 1-3 symbols none of which has a base case - token-tailed or epsilon-only, referred to or not, start symbol inside or outside - and their non-recursive twins (generator nobase), long inputs also for containers (sequence, sequence with AnyTokenExcept, 3 list forms, map) of 150 / 990..1100 / 2000 / 5000 items, each long text parsed with do_cleanup=False AND with the default do_cleanup=True when the derivation tree is at most 250 levels deep (tag cleanup:long)")
 TRUSTED = ["re (lexemes are found by the harness with the tokenizer's own pattern)"]
 ASSUMPTIONS = ["hypotheses of C02.exact / reject_raises / smart_indep: as C01.parse_valid (start symbol is a key of `productions`, "
                "no lexeme named $END$)",
@@ -25,8 +27,21 @@ ASSUMPTIONS = ["hypotheses of C02.exact / reject_raises / smart_indep: as C01.pa
                "sets for X yet is_ambiguous() is True; such keys are generated in the malformed stream only and the LL(1) clause of the "
                "oracle skips them",
                "in C02.ll1_as_written_unambiguous 'LL(1) as written' is stated with the model's own nullable/FIRST/FOLLOW functions "
-               "applied to the user's productions (proved to be the least sets: C02.sets_exact); the oracle uses an independent "
-               "FIRST/FOLLOW computation",
+               "applied to the user's productions; that these functions SUCCEED on the user's dictionary of every accepted grammar is "
+               "a theorem (C02.user_sets_total), no longer a hypothesis; that they return the least sets of whatever dictionary they "
+               "are applied to is proved generically (lemmas LL.nullables_least, LL.firstSets_exact, LL.followSets_exact; "
+               "C02.sets_exact is their instance for the factorised dictionary); the oracle uses an independent FIRST/FOLLOW computation",
+               "the *_templates theorems are about LL.constructGN nonull T (what the driver executes): the productions the templates "
+               "generate (T) and the item symbols of delimiter-less lists (nonull) are data supplied by the harness; hypothesis "
+               "PlainNames (no name of the shape X__Snn, decidable)",
+               "all totality / exactness / 'tree or ParsingError' theorems are about the RAW parse (do_cleanup=False, what the "
+               "correspondence compares). The default parse(text) additionally runs the clean-up: a recursive walk over the returned "
+               "tree (the list / map tail walk is iterative since /repo 2cdb1cb, the general descent is not), so for trees nested "
+               "deeper than CPython's recursion limit allows (a few hundred levels) the default call can raise RecursionError where the "
+               "raw parse returns a tree; default-cleanup calls (`px c`, compared as 'a result is returned') are issued on short inputs and on the long ones "
+               "- containers of 150 / 990..1100 / 2000 / 5000 items, user-written right recursion of 150 tokens - but ONLY when the "
+               "derivation tree of the user's grammar (a container = one node) is at most 250 levels deep; on deeper trees a "
+               "RecursionError of the default call is CPython's resource limit and is neither generated nor judged",
                "an alternative given as None is the empty alternative and AnyTokenExcept(*names) is the list of its one-token "
                "alternatives when the model sees them (protocol `!` / field AX=); the harness expands AnyTokenExcept itself: the "
                "SET of tokens is the reference's (token groups - synonym sources + synonym and keyword targets), only the order "
@@ -99,15 +114,15 @@ def oracle(case, replies):
 
 def gen_cases(rng, tier):
     diags = ("nullables", "first", "follow", "table")
-    yield from ll.gen_long_cases(rng, (150, 500, 2000))
+    yield from ll.gen_long_cases(rng, (150, 500, 2000), big=None if tier == "quick" else 5000)
     if tier == "quick":
-        for i, c in enumerate(ll.gen_ll_cases(rng, 1100, 4, sentences=30, ll1_share=0.45, diags=diags)):
+        for i, c in enumerate(ll.gen_ll_cases(rng, 1100, 4, sentences=30, ll1_share=0.45, diags=diags, tmpl_share=0.08)):
             if i % 50 == 0 and c["meta"].get("ref") == "ok":
                 c["meta"]["threads"] = 1      # a small stream: two threads on one parser object, judged by the oracle
             yield c
         return
     else:
-        yield from ll.gen_ll_cases(rng, 12000, 5, sentences=40, extra_long=10, ll1_share=0.45, diags=diags)
+        yield from ll.gen_ll_cases(rng, 12000, 5, sentences=40, extra_long=10, ll1_share=0.45, diags=diags, tmpl_share=0.08)
         yield from ll.tiny_grammars(rng, limit=20000)
 
 
@@ -142,15 +157,29 @@ LEVEL_TEXT = ("Kernel-checked on the executable model, for ALL grammars and toke
               "run out of fuel, C02.fuel_enough); factorisation "
               "preserves the language, C02.fact_lang_eq), identically for both smart_factorization values (C02.smart_indep); every "
               "non-sentence ends in ParsingError (C02.reject_raises); the computed FIRST/FOLLOW sets are the least sets "
-              "(C02.sets_exact), the conflict report is exact (C02.conflict_report_exact) and a grammar that is LL(1) as written "
-              "- every non-terminal having at least one alternative - is reported as not ambiguous (C02.ll1_as_written_unambiguous, "
-              "full strength; all its hypotheses are met by a concrete grammar with a nullable symbol and a unit production, "
-              "C02.ll1_as_written_nonvacuous). The clause 'unique derivation tree / a single parse' is kernel-checked as: when "
+              "(C02.sets_exact), the conflict report is exact (C02.conflict_report_exact). LL(1) clause: for every parser the "
+              "constructor returns, the model's nullable / FIRST / FOLLOW functions succeed on the dictionary the USER wrote "
+              "(C02.user_sets_total - proved, not assumed), and if with those sets the predict sets of the alternatives of every "
+              "symbol of the user's productions are pairwise disjoint, is_ambiguous() is False (C02.ll1_as_written_unambiguous). "
+              "Exactly three hypotheses remain: the constructor accepted the grammar; the start symbol is a key of `productions`; "
+              "every key has at least one alternative (without the last one the statement is false - kernel-evaluated "
+              "counterexample in Props/C02.lean, reproduced by the real parser); all are met by a concrete grammar with a nullable "
+              "symbol and a unit production (C02.ll1_as_written_nonvacuous). The clause 'unique derivation tree / a single parse' "
+              "is kernel-checked as: when "
               "is_ambiguous() is False every table entry holds exactly one production (C02.table_deterministic), a token list has "
               "at most one derivation tree of the USER's grammar rooted at the start symbol (C02.unique_derivation), and the tree "
-              "the backtracking loop returns is that tree (C02.parse_unique). NOT separately modelled: a predictive (non-"
+              "the backtracking loop returns is that tree (C02.parse_unique). The theorems above are stated for LL.construct (plain "
+              "dictionaries). For dictionaries with ProdSequence / ListProds / MapProds keys the driver executes LL.constructGN "
+              "(generated productions and delimiter-less list items as data, plus the templates' verify_grammar stage) and the "
+              "same clauses are proved for it w.r.t. the EXPANDED dictionary: C02.exact_templates (exactness + rejection), "
+              "C02.sets_exact_templates, C02.conflict_report_exact_templates, C02.ll1_as_written_unambiguous_templates (incl. "
+              "totality of the set functions), C02.parse_unique_templates (unique derivation + parse returns it), "
+              "C02.smart_indep_templates; not restated for templates: sets_closed / fuel_enough / det_complete / fact_lang_eq / "
+              "table_deterministic (generic in the dictionary, they apply as they are). NOT separately modelled: a predictive (non-"
               "backtracking) parser - its result would have to be a derivation tree too, hence the same tree; uniqueness for "
-              "dictionaries with templates and for parse(text, start_symbol_name=X) is not stated. model = code by a differential run incl. nullables, FIRST, FOLLOW and table as diagnostics, call "
+              "parse(text, start_symbol_name=X) is not stated. All of this is about the raw parse (do_cleanup=False); the default "
+              "clean-up is a recursive tree walk outside the model, bounded by CPython's recursion limit (see ASSUMPTIONS). "
+              "model = code by a differential run incl. nullables, FIRST, FOLLOW and table as diagnostics, call "
               "sequences on one parser object and is_ambiguous() before and after the parses.")
 LEVEL_NOTE = ("Trusted: Lean kernel (axioms propext, Classical.choice, Quot.sound), harness adapter/oracle (memoised CFG recogniser, "
               "independent FIRST/FOLLOW), sampled correspondence.")
